@@ -649,7 +649,9 @@ namespace sim
           violate ("growth.alloc_count", "long run: %llu reallocations for %llu appends (bound "
                    "%llu)", allocs, target, bound);
         const std::uint64_t moved = g.tot_events[EV_CTOR_MOVE] + g.tot_events[EV_CTOR_COPY] - moved0;
-        if (E::instrumented && moved > 3ull * target + 16)
+        // O(n): with a growth factor g >= 1.5 the relocations sum to at most n / (1 - 1/g) <= 3n,
+        // plus one construction from the argument per append
+        if (E::instrumented && moved > 4ull * target + 64)
           violate ("growth.reloc_count", "long run: %llu element relocations for %llu appends",
                    static_cast<unsigned long long> (moved), target);
         if (v.size () != target)
